@@ -621,6 +621,49 @@ pub fn module_json(m: &Module) -> serde_json::Value {
     serde_json::to_value(m).unwrap_or(serde_json::Value::Null)
 }
 
+/// AST as JSON without positions, syntax contexts, literal source text and parentheses: two
+/// modules with the same shape mean the same program.
+fn shape(v: &serde_json::Value) -> serde_json::Value {
+    use serde_json::Value;
+    match v {
+        Value::Object(o) => {
+            let ty = o.get("type").and_then(|t| t.as_str()).unwrap_or("");
+            if ty == "ParenthesisExpression" {
+                if let Some(e) = o.get("expression") {
+                    return shape(e);
+                }
+            }
+            if ty == "TsParenthesizedType" {
+                if let Some(e) = o.get("typeAnnotation") {
+                    return shape(e);
+                }
+            }
+            let mut out = serde_json::Map::new();
+            for (k, v) in o {
+                if k == "span" || k == "ctxt" || k == "raw" {
+                    continue;
+                }
+                out.insert(k.clone(), shape(v));
+            }
+            Value::Object(out)
+        }
+        Value::Array(a) => Value::Array(a.iter().map(shape).collect()),
+        other => other.clone(),
+    }
+}
+
+/// Does swc's own hygiene + fixer + codegen print `m` as text that parses back to the same
+/// program? (Seen not to: `((a, b) as any)` loses its parentheses.) None = cannot tell.
+pub fn print_is_faithful(t: &Transformed, m: &Module) -> Option<bool> {
+    let code = t.print_final(m).ok()?;
+    let lang = t.lang;
+    let back = GLOBALS.set(&Globals::new(), || {
+        let cm: Lrc<SourceMap> = Default::default();
+        parse(&cm, &code, lang.syntax(true), None).ok()
+    })?;
+    Some(shape(&module_json(m)) == shape(&module_json(&back)))
+}
+
 
 fn has_invalid_nodes(m: &Module) -> bool {
     struct V(bool);
